@@ -973,4 +973,58 @@ theorem build_ok (nodes : List Node) : TblOK ps (build ps nodes) := by
   | nil => intro tbl h; exact h
   | cons nd l ih => intro tbl h; exact ih _ (buildStep_ok ps h nd)
 
+
+/-! ## Lamport timestamps -/
+
+def lamport (e : E) : Int := lOf (info ps e)
+
+theorem lamport_nil : lamport ps .nil = -1 := rfl
+
+theorem lamport_mk (i c : Nat) (s o : E) (m : Bool) :
+    lamport ps (.mk i c s o m) =
+      (if o = .nil then lamport ps s else if lamport ps o > lamport ps s then lamport ps o else lamport ps s) + 1 := by
+  show (headRec ps (.mk i c s o m) (info ps s) (info ps o)).lamport = _
+  simp only [headRec, lamportFrom]
+  cases o with
+  | nil => simp [info, lamport]
+  | mk i' c' s' o' m' =>
+    simp only [info_mk, Gen.cmpLamport, Cmp.eval, reduceCtorEq, if_false]
+    show (if decide ((headRec ps (.mk i' c' s' o' m') (info ps s') (info ps o')).lamport > lOf (info ps s)) = true then _ else _) + 1 = _
+    by_cases h : (headRec ps (.mk i' c' s' o' m') (info ps s') (info ps o')).lamport > lOf (info ps s)
+    · simp only [h, decide_true, if_true]
+      have : lamport ps (.mk i' c' s' o' m') > lamport ps s := h
+      simp only [this, if_true]; rfl
+    · simp only [h, decide_false, Bool.false_eq_true, if_false]
+      have : ¬ lamport ps (.mk i' c' s' o' m') > lamport ps s := h
+      simp only [this, if_false]; rfl
+
+theorem lamport_ge (e : E) : -1 ≤ lamport ps e := by
+  induction e with
+  | nil => simp [lamport_nil]
+  | mk i c s o m ihs iho => rw [lamport_mk]; split <;> [omega; (split <;> omega)]
+
+theorem lamport_parents_lt (i c : Nat) (s o : E) (m : Bool) :
+    lamport ps s < lamport ps (.mk i c s o m) ∧ lamport ps o < lamport ps (.mk i c s o m) := by
+  have hs := lamport_ge ps s
+  rw [lamport_mk]
+  by_cases ho : o = .nil
+  · subst ho; simp [lamport_nil]; omega
+  · simp only [ho, if_false]; split <;> omega
+
+/-- **Lamport timestamps strictly increase along ancestry** (the frame order, sorted by Lamport
+    timestamp, therefore never puts a descendant before one of its ancestors) -/
+theorem lamport_anc {a e : E} (h : Anc a e) (hne : a ≠ e) : lamport ps a < lamport ps e := by
+  induction e with
+  | nil => exact absurd h (anc_nil_right a)
+  | mk i c s o m ihs iho =>
+    have hp := lamport_parents_lt ps i c s o m
+    rcases anc_mk.mp h with h | h | h
+    · exact absurd h hne
+    · by_cases he : a = s
+      · rw [he]; exact hp.1
+      · have := ihs h he; omega
+    · by_cases he : a = o
+      · rw [he]; exact hp.2
+      · have := iho h he; omega
+
 end Babble.Dag
